@@ -70,6 +70,12 @@ def oracle_naive(case, ctx):
     n = len(v)
     strategy, sp, w = case["strategy"], case["sp"], case["wl"]
     f = NaiveForecaster(strategy=strategy, sp=sp, window_length=w)
+    if case.get("prefit"):
+        # the same object was fitted before on a shorter prefix: a fit starts afresh
+        k = max(eff_window(strategy, sp, w, n), min(n, 3)) if w is not None or strategy == "last" else max(sp + 1, n - case["prefit"])
+        k = min(max(k, sp + 1, 3), n)
+        sut(f.fit, y.iloc[:k])
+        ctx.label("refit_same_object")
     r = sut(f.fit, y)
     if isinstance(r, Raised):
         return [D("valid_fit_rejected:%s" % r.type, "strategy=%s sp=%s wl=%s n=%d: %s" % (strategy, sp, w, n, r.msg))]
@@ -141,6 +147,7 @@ def naive_cases(draw, strategy, in_sample=False):
         "strategy": strategy, "sp": sp, "wl": w, "values": vals, "fh": steps,
         "start": draw(gen.index_start), "index_kind": draw(gen.index_kind),
         "fh_kind": draw(st.sampled_from(["list", "array", "fh"])),
+        "prefit": draw(st.sampled_from([0, 0, 1, 3, 7])),
     }
 
 
@@ -152,6 +159,8 @@ def oracle_trend(case, ctx):
     n = len(v)
     deg, icpt = case["degree"], case["with_intercept"]
     f = PolynomialTrendForecaster(degree=deg, with_intercept=icpt)
+    if case.get("prefit") and n - case["prefit"] >= deg + 2:
+        sut(f.fit, y.iloc[: n - case["prefit"]])
     r = sut(f.fit, y)
     if isinstance(r, Raised):
         return [D("valid_fit_rejected:%s" % r.type, r.msg)]
@@ -193,6 +202,7 @@ def trend_cases(draw):
         "values": draw(gen.series_values(n, n, lo=-500.0, hi=1000.0)), "fh": steps,
         "start": draw(gen.index_start), "index_kind": draw(gen.index_kind),
         "fh_kind": draw(st.sampled_from(["list", "array", "fh"])),
+        "prefit": draw(st.sampled_from([0, 0, 2, 5])),
     }
 
 
